@@ -9,6 +9,7 @@ func init() {
 			"R17 the sort key of a node reads only its segment (K9 while priority() reads the child list). " +
 			"R18 a split stores the new head into the element that held the node; R19 (= C01.R22) end point = empty suffix. " +
 			"R20 every registration adds the methods it installed to the tree-wide counters; R21 (= C02.R21) the split point of two segment texts, for all pairs of texts. " +
+			"R22 (= C17.R11) the regexp split point is a character boundary; R23 two literal segments are compared byte for byte. " +
 			"Not decided: that every live route is still served and that the winner is the priority winner for all histories (needs an executable reference model — a different technique).",
 		Assumptions: commonAssumptions,
 		Run: func(c *Ctx) {
@@ -36,6 +37,7 @@ func init() {
 			ruleInstallsAreCounted(c, "R20")
 			ruleSplitPointAutomaton(c, "R21")
 			ruleRegexpSplitOnRuneBoundary(c, "R22")
+			ruleLiteralSegmentsSplitBytewise(c, "R23")
 		},
 	})
 }
